@@ -25,3 +25,6 @@ int imp (int n, int m) { string *a = allocate (n); int i; for (i = 0; i < n; i++
 int rpl (int a, int b, int r) { string s = repeat_string ("c", a) + repeat_string ("ab", b); mixed x = replace_string (s, "ab", repeat_string ("x", r)); return stringp (x) ? strlen (x) : -1; }
 int pcto () { int i; for (i = 0; i < 100000; i++) sprintf ("%O", this_object ()); return i; }
 int spf (int n) { string s = repeat_string ("x", n); return strlen (sprintf ("%s%s", s, s)); }
+int crec () { mixed e = catch (crec ()); if (e) VL ("after-catch " + kind (e)); return 1; }
+int c1rec2 () { return crec (); }
+int bufsz (int n) { return sizeof (allocate_buffer (n)); }
